@@ -1,7 +1,8 @@
 (* C14 Lexing depends on the characters only, not on how they are supplied. *)
 From LexVerif Require Import Base CharClass RangeMap Regex Spec SpecExec LexSpec Nfa Dfa NfaToDfa NfaSem Codegen
      Runtime ScanIface RulesetSem Driver SpecDef ClassAlgProofs RuntimeProofs RuntimeLemmas ScanOkProofs
-     RulesetSemProofs LexSpecProofs LexSpecFacts EndToEnd Harness.
+     RulesetSemProofs LexSpecProofs LexSpecFacts EndToEnd EndToEndModel Instance Harness.
+From LexVerif.Gen Require Import GenTables GenConsts.
 
 Theorem c14_constructors_differ_only_in_input : forall (U : Type) (input : list N) (u : U),
   lex_eq_upto_input U (lexer_new U input u true) (lexer_new U input u false).
